@@ -31,16 +31,16 @@ LIFE = {  # job -> (enforced function, label, properties, loops)
     "assign_move": ("su_assign_move", "SU_vector::operator=(SU_vector&&)", "C08 C14 C15", False),
     "pluseq": ("su_pluseq", "SU_vector::operator+=(const SU_vector&)", "C14 C15", True),
     "minuseq": ("su_minuseq", "SU_vector::operator-=(const SU_vector&)", "C14 C15", True),
-    "eq": ("su_eq", "SU_vector::operator==", "C15", True),
+    "eq": ("su_eq", "SU_vector::operator==", "C01 C08 C15", True),
 }
 GUARDS = ["op_plus_0", "op_plus_1", "op_plus_2", "op_plus_3", "op_minus_0", "op_minus_1", "f_iCommutator", "f_ACommutator",
           "f_Elementwise_0", "f_Elementwise_1", "f_Elementwise_2", "f_Elementwise_3", "m_Evolve", "op_dot"]
 
 
 class Fam:
-    def __init__(self, rep, pid):
+    def __init__(self, rep, pid, sub=""):
         self.rep, self.pid = rep, pid
-        self.bdir = core.builddir(pid)
+        self.bdir = core.builddir(pid + sub)
         self.tpl = {}
         self.text = {}
         self.jobs = []       # (Job, template name, props string)
